@@ -142,6 +142,21 @@ def rewritten_datasets(chk, r, tmp):
             chk.evaluated(len(want))
             if [int(x) for x in back["a"]] != [int(x) for x in want["a"]] or len(back) != len(want):
                 chk.violation("parquet/dask-glob-read-again/rows-differ", dict(rep, step=step, got=[int(x) for x in back["a"]], expected=[int(x) for x in want["a"]])); return
+        # dataset names are the user's: one that contains the name of a metadata file is still a dataset
+        ndir = os.path.join(tmp, "named")
+        os.makedirs(ndir)
+        parts_, names_ = [], ("a.parq", "b_metadata.parq", "c_common_metadata_v2.parq")
+        for j, nm in enumerate(names_):
+            df = make_frame(r, 3 + j, ["point"], ["float64"], "default", "plain")
+            df["a"] = [100 * j + i for i in range(len(df))]
+            parts_.append(df)
+            dd.from_pandas(df, npartitions=1 + j % 2).to_parquet(os.path.join(ndir, nm))
+        want = [int(x) for d_ in parts_ for x in d_["a"]]
+        for how, arg in (("glob", os.path.join(ndir, "*.parq")), ("list", [os.path.join(ndir, nm) for nm in names_])):
+            back = read_parquet_dask(arg).compute()
+            chk.evaluated(len(want))
+            if [int(x) for x in back["a"]] != want:
+                chk.violation(f"parquet/dask-{how}-of-datasets/dataset-dropped-or-reordered", dict(rep, names=list(names_), got=[int(x) for x in back["a"]], expected=want)); return
         ppath = os.path.join(tmp, "rewritten_pandas.parq")
         for step, n in enumerate((5, 11, 3)):
             df = make_frame(r, n, ["polygon"], ["float64"], "unnamed", "plain")
